@@ -5,6 +5,11 @@
 //   c16-json     hex(JSON number text)     -> <bits> | ERR          (serde_json::from_str + from_json)
 //   c16-parsef64 hex(text)                 -> <bits> | ERR          (Rust str::parse::<f64>, library contract test)
 //   c16-jsonlist hex(JSON array of numbers)-> bits,bits,...          (same path, many numbers per call)
+//   c16-astlit   hex(source of one expression: container literal of number literals) -> value of the source, of
+//                expr_to_source(AST) and of format_expr(AST, w) at several widths (numbers inside containers
+//                through source emission / the formatter)
+//   c16-capt     bits,.. hex(setup) hex(probes) -> numbers inside CAPTURED CONTAINERS through function-source
+//                emission (JSON function output, re-emission of the reloaded function, to_string(f)) and back
 use crate::show::{hex, num_bits, unhex};
 use crate::streams::{run_program, Session};
 use blots_core::ast::{Expr, Spanned};
@@ -27,6 +32,8 @@ pub fn dispatch(sub: &str, _rest: &[String], line: &str) -> Option<String> {
         "c16-json" => Some(json_line(line)),
         "c16-jsonlist" => Some(jsonlist_line(line)),
         "c16-parsef64" => Some(parsef64_line(line)),
+        "c16-capt" => Some(capt_line(line)),
+        "c16-astlit" => Some(astlit_line(line)),
         _ => None,
     }
 }
@@ -220,4 +227,196 @@ fn parsef64_line(line: &str) -> String {
         },
         None => "BADUTF8".into(),
     }
+}
+
+/// Results of a probe program (one expression per line, each expected to yield a number): the bits of every
+/// probe, comma separated; a probe that fails or yields something else is shown by its outcome class.
+fn capt_probe(sess: &mut Session, probes: &[&str]) -> String {
+    probes
+        .iter()
+        .map(|p| {
+            let r = run_program(sess, p, false);
+            match r.last() {
+                Some(x) if r.len() == 1 && x.starts_with("OK:N") => x[4..].to_string(),
+                Some(x) if x.starts_with("OK:") => "OTHER".to_string(),
+                Some(x) => x.replace([' ', ','], "_"),
+                None => "EMPTY".to_string(),
+            }
+        })
+        .collect::<Vec<_>>()
+        .join(",")
+}
+
+/// Emitted `__blots_function` source of the binding `f` of a session.
+fn capt_emit(sess: &Session) -> Option<String> {
+    let fv = sess.bindings.get("f")?;
+    let ser = fv.to_serializable_value(&sess.heap.borrow()).ok()?;
+    let js = ser.to_json();
+    js.get("__blots_function").and_then(|s| s.as_str()).map(|s| s.to_string())
+}
+
+/// A fresh session whose `f` is the function loaded from an emitted source (JSON function input).
+fn capt_reload(src: &str) -> Option<Session> {
+    let doc = serde_json::json!({ "f": { "__blots_function": src } }).to_string();
+    let mut s = Session::new(Some(&doc)).ok()?;
+    let r = run_program(&mut s, "f = inputs.f", false);
+    if r.len() == 1 && r[0].starts_with("OK:FN") {
+        Some(s)
+    } else {
+        None
+    }
+}
+
+/// `bits,bits,... hex(setup program) hex(probe lines)`: the numbers are bound bit-exactly as n0, n1, ...; the
+/// setup program builds containers from them and ends by binding the function `f` that captured them; every
+/// probe is an expression over `f` that yields one number.
+///   O  = probes on the original function
+///   E  = emitted source (hex), R = probes on the function reloaded from E (JSON function input)
+///   E2 = "same" | hex(source emitted again from the reloaded function), R2 = probes on its reload
+///   T  = to_string(f) (hex), TR = probes on `f = <that text>` read by the parser in a fresh session
+fn capt_line(line: &str) -> String {
+    let parts: Vec<&str> = line.split(' ').collect();
+    if parts.len() != 3 {
+        return "BADINPUT".into();
+    }
+    let mut sess = match Session::new(None) {
+        Ok(s) => s,
+        Err(_) => return "BADSESSION".into(),
+    };
+    for (i, b) in parts[0].split(',').filter(|b| !b.is_empty()).enumerate() {
+        match u64::from_str_radix(b, 16) {
+            Ok(bits) => {
+                sess.bindings.insert(format!("n{}", i), Value::Number(f64::from_bits(bits)));
+            }
+            Err(_) => return "BADINPUT".into(),
+        }
+    }
+    let (setup, probes_text) = match (text_of(parts[1]), text_of(parts[2])) {
+        (Some(a), Some(b)) => (a, b),
+        _ => return "BADUTF8".into(),
+    };
+    let probes: Vec<&str> = probes_text.split('\n').filter(|p| !p.is_empty()).collect();
+    // a setup of the form `<pre>\n#!inputs\n<post>`: after <pre> the session's `inputs` record is replaced by the
+    // value bound to `inp` (numbers reach it bit-exactly, not through JSON text), so that <post> can define a
+    // function that captured `inputs` (the `#field` / `inputs.field` emission sites)
+    let setup = match setup.split_once("#!inputs\n") {
+        Some((pre, post)) => {
+            let _ = run_program(&mut sess, pre, false);
+            match sess.bindings.get("inp") {
+                Some(v) => {
+                    sess.bindings.insert("inputs".to_string(), v.clone());
+                }
+                None => return "SETUP=NOINP".into(),
+            }
+            post.to_string()
+        }
+        None => setup,
+    };
+    let rs = run_program(&mut sess, &setup, false);
+    if !rs.last().map(|r| r.starts_with("OK:FN")).unwrap_or(false) {
+        return format!("SETUP={}", rs.last().cloned().unwrap_or_default().replace(' ', "_"));
+    }
+    let mut out: Vec<String> = Vec::new();
+    out.push(format!("O={}", capt_probe(&mut sess, &probes)));
+    match capt_emit(&sess) {
+        Some(src) => {
+            out.push(format!("E={}", hex(src.as_bytes())));
+            match capt_reload(&src) {
+                Some(mut s2) => {
+                    out.push(format!("R={}", capt_probe(&mut s2, &probes)));
+                    match capt_emit(&s2) {
+                        Some(src2) => {
+                            if src2 == src {
+                                out.push("E2=same".into());
+                            } else {
+                                out.push(format!("E2={}", hex(src2.as_bytes())));
+                            }
+                            match capt_reload(&src2) {
+                                Some(mut s3) => out.push(format!("R2={}", capt_probe(&mut s3, &probes))),
+                                None => out.push("R2=NORELOAD".into()),
+                            }
+                        }
+                        None => out.push("E2=NOEMIT R2=NOEMIT".into()),
+                    }
+                }
+                None => out.push("R=NORELOAD E2=- R2=-".into()),
+            }
+        }
+        None => out.push("E=NOEMIT R=- E2=- R2=-".into()),
+    }
+    let rt = run_program(&mut sess, "to_string(f)", false);
+    match rt.last() {
+        Some(s) if rt.len() == 1 && s.starts_with("OK:S") && s.ends_with(';') => {
+            let h = &s[4..s.len() - 1];
+            out.push(format!("T={}", h));
+            match (text_of(h), Session::new(None)) {
+                (Some(t), Ok(mut s4)) => {
+                    let r4 = run_program(&mut s4, &format!("f = {}", t), false);
+                    if r4.len() == 1 && r4[0].starts_with("OK:FN") {
+                        out.push(format!("TR={}", capt_probe(&mut s4, &probes)));
+                    } else {
+                        out.push("TR=NOPARSE".into());
+                    }
+                }
+                _ => out.push("TR=BAD".into()),
+            }
+        }
+        _ => out.push("T=- TR=NOTEXT".into()),
+    }
+    out.join(" ")
+}
+
+/// Value (show_value text) of a one-expression source, or an outcome class.
+fn astlit_eval(src: &str) -> String {
+    match Session::new(None) {
+        Ok(mut s) => {
+            let r = run_program(&mut s, src, false);
+            match r.last() {
+                Some(x) if r.len() == 1 && x.starts_with("OK:") => x[3..].to_string(),
+                Some(x) => x.replace(' ', "_"),
+                None => "EMPTY".into(),
+            }
+        }
+        Err(_) => "BADSESSION".into(),
+    }
+}
+
+fn astlit_line(line: &str) -> String {
+    let src = match text_of(line.trim()) {
+        Some(s) => s,
+        None => return "BADUTF8".into(),
+    };
+    let pairs = match get_pairs(&src) {
+        Ok(p) => p,
+        Err(_) => return "REJECT".into(),
+    };
+    let mut expr = None;
+    for pair in pairs {
+        if pair.as_rule() != Rule::statement {
+            continue;
+        }
+        if let Some(inner) = pair.into_inner().next() {
+            if inner.as_rule() == Rule::expression {
+                expr = pairs_to_expr(inner.into_inner()).ok();
+            }
+        }
+        break;
+    }
+    let e = match expr {
+        Some(e) => e,
+        None => return "NOEXPR".into(),
+    };
+    let mut out = vec![format!("V={}", astlit_eval(&src))];
+    let t = expr_to_source(&e);
+    out.push(format!("ST={}", hex(t.as_bytes())));
+    out.push(format!("S={}", astlit_eval(&t)));
+    let ws: [Option<usize>; 5] = [None, Some(0), Some(1), Some(20), Some(80)];
+    for (i, w) in ws.iter().enumerate() {
+        let ft = format_expr(&e, *w);
+        if i == 3 {
+            out.push(format!("FT={}", hex(ft.as_bytes())));
+        }
+        out.push(format!("F{}={}", i, astlit_eval(&ft)));
+    }
+    out.join(" ")
 }
